@@ -15,6 +15,7 @@ func init() {
 	verifRegister("verifC08Cross", verifC08Cross)
 	verifRegister("verifC08Prim", verifC08Prim)
 	verifRegister("verifC08SetLen", verifC08SetLen)
+	verifRegister("verifC08SetUnknown", verifC08SetUnknown)
 }
 
 // c08Check runs every conversion entry point on the pair (wholly known c, weakened w) and asserts the clauses of C08.
@@ -23,6 +24,7 @@ func c08Check(src cty.Type, p cvPair, want cty.Type) {
 	var ec, ew error
 	vLog("src=%#v\n  | want=%#v\n  | c=%#v\n  | w=%#v", src, want, p.c, p.w)
 	defer func() { vLog("rc=%#v ec=%v\n  | rw=%#v ew=%v", rc, ec, rw, ew) }()
+	vKnown("F19-map-to-object-optional-placeholder", cvMapToOptionalDynamic(src, want))
 	vAssert("convert-no-panic", !vExpectPanic(func() { rc, ec = Convert(p.c, want) }))
 	vAssert("convert-weakened-no-panic", !vExpectPanic(func() { rw, ew = Convert(p.w, want) }))
 	var safe, unsafe Conversion
@@ -122,7 +124,7 @@ func c08Result(tag string, in cty.Value, want cty.Type, r cty.Value, err error) 
 
 // verifC08Derived: depth-1 source types, every value shape, targets derived by up to two mutations.
 func verifC08Derived() {
-	g := &cvGen{special: 1 + vTier(), marks: 1, tmut: 1 + vTier(), width: 1 + vTier(), dynSrc: true}
+	g := &cvGen{special: 1 + vTier(), marks: 1, tmut: 2, width: 1 + vTier(), dynSrc: true}
 	src := g.typ("t", 1)
 	want := g.target("w", src)
 	g.concStr = cvHasKind(want, cty.Number)
@@ -132,7 +134,7 @@ func verifC08Derived() {
 
 // verifC08Derived2: depth-2 source types (narrower), targets derived by up to two (quick) / three (thorough) mutations.
 func verifC08Derived2() {
-	g := &cvGen{special: 1, marks: vTier(), tmut: 2 + vTier(), width: 1 + vTier(), dynSrc: vTier() > 0}
+	g := &cvGen{special: vTier(), marks: vTier(), tmut: 2 + vTier(), width: 1 + vTier(), dynSrc: vTier() > 0, shortStr: true}
 	src := g.typ("t", 2)
 	vAssume(cvDepth(src) == 2)
 	want := g.target("w", src)
@@ -217,4 +219,27 @@ func verifC08SetLen() {
 	dstE := []cty.Type{cty.String, cty.Bool, cty.DynamicPseudoType}[vChoice("dstE", 3)]
 	want := kinds[dstK](dstE)
 	c08Check(src, cvPair{c, w}, want)
+}
+
+// verifC08SetUnknown: sets whose length is not known (two members, one of them unknown) converted to derived targets.
+func verifC08SetUnknown() {
+	g := &cvGen{tmut: 2, width: 1, shortStr: true}
+	var et cty.Type
+	if vTier() == 0 {
+		et = []cty.Type{cty.String, cty.Bool, cty.Map(cty.String), cty.Object(map[string]cty.Type{"a": cty.String})}[vChoice("e", 4)]
+	} else {
+		et = g.typ("e", 1)
+	}
+	src := cty.Set(et)
+	a := g.known("a", et)
+	b := g.known("b", et)
+	vAssume(!a.c.RawEquals(b.c))
+	u := cty.UnknownVal(et)
+	if vBool("notnull") {
+		u = u.RefineNotNull()
+	}
+	p := cvPair{cty.SetVal([]cty.Value{a.c, b.c}), cty.SetVal([]cty.Value{a.c, u})}
+	want := g.target("w", src)
+	vAssume(!cvHasKind(want, cty.Number) || !cvHasKind(src, cty.String))
+	c08Check(src, p, want)
 }
